@@ -256,7 +256,7 @@ func c04Wire() *explore.Scenario {
 			if isRandomized(id) {
 				id = seededRandomized(id.Client, x.Choose("seed", 6))
 			}
-			mode := x.Choose("mode", 2) // 0 direct, 1 fingerprinted copy
+			mode := x.Choose("mode", 3) // 0 direct, 1 fingerprinted copy, 2 spec whose GREASE key share carries 2 bytes
 			// three connections with pairwise different nibbles in every seed word, then the
 			// (ext1,ext2) nibble pair forced to one of the 256 combinations (incl. equal)
 			pair := x.Choose("extpair", 256)
@@ -270,6 +270,10 @@ func c04Wire() *explore.Scenario {
 			wantS, wantG, wantE, wantV, wantK := specGreaseCounts(spec)
 			if wantS+wantG+wantE+wantV+wantK == 0 {
 				r.Obs = "no-grease-in-spec"
+				return
+			}
+			if mode == 2 && (wantK == 0 || pair%16 != 0) {
+				r.Obs = "mode2-not-applicable"
 				return
 			}
 			mk := func(conn int) (*wire.Hello, greaseView, string) {
@@ -290,6 +294,23 @@ func c04Wire() *explore.Scenario {
 				var pm string
 				if mode == 0 {
 					stream, _, _, pm = firstFlight(cfg, id, nil)
+				} else if mode == 2 {
+					stream, _, _, pm = firstFlight(cfg, tls.HelloCustom, func(u *tls.UConn) error {
+						sp, err := tls.UTLSIdToSpec(id)
+						if err != nil {
+							return err
+						}
+						for _, e := range sp.Extensions {
+							if ks, ok := e.(*tls.KeyShareExtension); ok {
+								for i := range ks.KeyShares {
+									if isGrease16(uint16(ks.KeyShares[i].Group)) {
+										ks.KeyShares[i].Data = []byte{0, 0}
+									}
+								}
+							}
+						}
+						return u.ApplyPreset(&sp)
+					})
 				} else {
 					// fingerprint a capture made with other entropy, then apply
 					c0 := peer.ClientConfig("example.com")
